@@ -244,6 +244,7 @@ inductive SOp
   | clear
   | apply (adds dels : List Nat)
   | compute (adds dels : List Nat)   -- factory: added = adds, deleted = current ∩ dels
+  | computeSaw (adds dels seen : List Nat)   -- the same, with the factory's own observation `seen` = current ∩ dels recorded
   | replace (els : List Nat)
   | addAll (els : List Nat)
   | delAll (els : List Nat)
@@ -266,6 +267,14 @@ def specStep (s : ASet) : SOp → ASet × SRes
   | .compute a d =>
     let r := compute s (fun cur => (a, elems (filter (newSet cur) (fun e => d.contains e))))
     (r.1, .mut (elems r.2.1) (elems r.2.2))
+  | .computeSaw a d seen =>
+    -- `Compute` is one atomic step: the state its factory reads is the state its answer is applied to.  A recorded
+    -- observation that is not the current ∩ dels of this state cannot be explained here (the result `.unit` never
+    -- equals a recorded `.mut`).
+    if elems (filter s (fun e => d.contains e)) = seen then
+      let r := compute s (fun cur => (a, elems (filter (newSet cur) (fun e => d.contains e))))
+      (r.1, .mut (elems r.2.1) (elems r.2.2))
+    else (s, .unit)
   | .replace l => let r := replace s l; (r.1, .set (elems r.2))
   | .addAll l => let r := addAll s l; (r.1, .set (elems r.2))
   | .delAll l => let r := deleteAll s l; (r.1, .set (elems r.2))
@@ -411,6 +420,8 @@ def parseHCall (tok : String) : Option HCall :=
     some { op := .apply (← pl a) (← pl d), res := .mut (← pl ra) (← pl rd), inv := ← i.toNat?, ret := ← r.toNat? }
   | [i, r, "compute", a, d, ra, rd] => do
     some { op := .compute (← pl a) (← pl d), res := .mut (← pl ra) (← pl rd), inv := ← i.toNat?, ret := ← r.toNat? }
+  | [i, r, "computesaw", a, d, sn, ra, rd] => do
+    some { op := .computeSaw (← pl a) (← pl d) (← pl sn), res := .mut (← pl ra) (← pl rd), inv := ← i.toNat?, ret := ← r.toNat? }
   | [i, r, "replace", l, rl] => do
     some { op := .replace (← pl l), res := .set (← pl rl), inv := ← i.toNat?, ret := ← r.toNat? }
   | [i, r, "addall", l, rl] => do
